@@ -29,7 +29,11 @@ LEVEL_TEXT = ("For each seeded (old registry, new registry, device write limit) 
               "registry. Crash points exhaustive per triple, triples seeded. A fifth of the triples run in session mode "
               "(start -> saver -> registry changes -> stop, crash points over the whole raw-operation sequence). On "
               "every damaged image (and a sample of the others) the process is additionally restarted twice through a "
-              "real Gateway context: a start on the surviving file must not change what the file loads to.")
+              "real Gateway context: a start on the surviving file must not change what the file loads to. Per triple "
+              "also: the process dies inside the serialiser (a crash instant between raw operations), and - without any "
+              "crash - a save that fails with an injected I/O error in the middle of its writes is followed by a "
+              "successful save of the old registry, after which the file must load to it; in session mode the run "
+              "without a crash must leave the registry as of the stop on the disk.")
 LEVEL_NOTE = ("Crash model = process death: bytes handed to the raw device survive, user-space buffers (TextIOWrapper/"
               "BufferedWriter) do not. Power loss / fsync / directory-entry durability are out of scope. Raw operations "
               "are those of Python's io stack on the simulated device.")
